@@ -84,8 +84,8 @@ Qed.
 (* after any history: a kill at any point of the next keyed write; what every OTHER key reads afterwards *)
 Theorem crash_reads_after_history (h : list cop) fl key o cs now :
   forallb (c_ok hash) h = true -> c_ok hash (CStream fl key o cs now) = true ->
-  NoColl hash (c_all (c_step (fold_left c_step h cspec0) (CStream fl key o cs now))) ->
-  let f := fold_left (c_run hash) h [] in let s := fold_left c_step h cspec0 in
+  NoColl hash (c_all (c_step hash (fold_left (c_step hash) h cspec0) (CStream fl key o cs now))) ->
+  let f := fold_left (c_run hash) h [] in let s := fold_left (c_step hash) h cspec0 in
   let data := List.concat cs in let a := algo_of o in
   PrefixFree hash (encode_smeta (smeta_of key (commit_opts o (sri_of hash a data) (lenN data)) now)) ->
   Forall (fun c =>
@@ -103,7 +103,7 @@ Proof.
   assert (o_sri o = None) as Hns' by (destruct (o_sri o); [discriminate|reflexivity]).
   pose proof (opts_ok_wf_rec hash key _ now Hopts) as Hwf.
   assert (NoColl hash (c_all s)) as Hnc0.
-  { destruct (c_all_grows (fold_left c_step h cspec0) (CStream fl key o cs now)) as [pre E]. rewrite E in Hnc. exact (NoColl_suffix hash _ _ Hnc). }
+  { destruct (c_all_grows hash (fold_left (c_step hash) h cspec0) (CStream fl key o cs now)) as [pre E]. rewrite E in Hnc. exact (NoColl_suffix hash _ _ Hnc). }
   destruct (chistory_refines hash HL h [] cspec0 (cinv_empty hash) Hok Hnc0) as [Hinv [Hm Hst]]. fold f s in Hinv, Hm, Hst.
   pose proof (stream_write_keyed_crash f fl key o cs now Hinv Hns' Hsz Hwf Hpf) as Hcr. fold data a in Hcr.
   apply Forall_forall. intros c Hin. rewrite Forall_forall in Hcr. destruct (Hcr c Hin) as [Hic [Hoth Hkey]].
